@@ -56,14 +56,31 @@ macro_rules! impl_derivatives {
                 } else if (n - F::one() - F::one()).abs() < F::epsilon() {
                     self * self
                 } else {
+                    // only use the lowest power that is required for the highest derivative,
+                    // so that the result is finite at zero whenever all derivatives are
                     let n1 = n - F::one();
-                    let n2 = n1 - F::one();
-                    let n3 = n2 - F::one();
-                    let pow3 = self.re.powf(n3);
-                    let f0 = pow3.clone() * &self.re * &self.re * &self.re;
-                    let f1 = pow3.clone() * &self.re * &self.re * n;
-                    second!($deriv, let f2 = pow3.clone() * &self.re * n * n1;);
-                    third!($deriv, let f3 = pow3 * n * n1 * n2;);
+                    second!($deriv, let n2 = n1 - F::one(););
+                    third!($deriv, let n3 = n2 - F::one(););
+                    by_order!($deriv,
+                        {
+                            let pow1 = self.re.powf(n1);
+                            let f0 = pow1.clone() * &self.re;
+                            let f1 = pow1 * n;
+                        },
+                        {
+                            let pow2 = self.re.powf(n2);
+                            let f0 = pow2.clone() * &self.re * &self.re;
+                            let f1 = pow2.clone() * &self.re * n;
+                            let f2 = pow2 * n * n1;
+                        },
+                        {
+                            let pow3 = self.re.powf(n3);
+                            let f0 = pow3.clone() * &self.re * &self.re * &self.re;
+                            let f1 = pow3.clone() * &self.re * &self.re * n;
+                            let f2 = pow3.clone() * &self.re * n * n1;
+                            let f3 = pow3 * n * n1 * n2;
+                        }
+                    );
                     chain_rule!($deriv, Self::chain_rule(self, f0, f1, f2, f3))
                 }
             }
@@ -344,6 +361,19 @@ macro_rules! third {
     (second, $($code:tt)*) => {};
     (third, $($code:tt)*) => {
         $($code)*
+    };
+}
+
+#[macro_export]
+macro_rules! by_order {
+    (first, {$($first:tt)*}, {$($second:tt)*}, {$($third:tt)*}) => {
+        $($first)*
+    };
+    (second, {$($first:tt)*}, {$($second:tt)*}, {$($third:tt)*}) => {
+        $($second)*
+    };
+    (third, {$($first:tt)*}, {$($second:tt)*}, {$($third:tt)*}) => {
+        $($third)*
     };
 }
 
